@@ -31,16 +31,18 @@ type clusterSim struct {
 	jmode    string
 	maxPages uint32
 
-	mu        sync.Mutex
-	latest    map[string]ltx.Pos // newest committed position per db (primary's history)
-	commits   int
-	wantTx    int
-	stopWork  bool
-	readerOK  int
-	writerLog []string
-	down      map[int]string // crashed nodes -> image dir
-	reaping   int
-	actors    int // running application goroutines
+	mu           sync.Mutex
+	latest       map[string]ltx.Pos // newest committed position per db (primary's history)
+	commits      int
+	ckpts        int  // application checkpoints completed (C10)
+	walReadPause bool // WAL writers linger as readers before they write (C10)
+	wantTx       int
+	stopWork     bool
+	readerOK     int
+	writerLog    []string
+	down         map[int]string // crashed nodes -> image dir
+	reaping      int
+	actors       int // running application goroutines
 
 	// oracle switches
 	checkReaders bool
@@ -217,6 +219,9 @@ func (cs *clusterSim) writeOnce(p *Node, db string, t *Tape) {
 			break
 		}
 		prog := GenWalProgram(t, cur.N(), cs.maxPages)
+		if cs.walReadPause {
+			c.PauseAfterWalRead = []time.Duration{0, 0, 30 * time.Millisecond, 250 * time.Millisecond}[t.Next(4)]
+		}
 		res = c.WalWriteTx(prog, cur)
 		if t.Chance(1, 6) && res.Outcome == OutCommit {
 			c.WalCheckpoint([]string{CkptPassive, CkptFull, CkptRestart, CkptTruncate}[t.Next(4)])
